@@ -22,6 +22,18 @@ def tmodel(ctx) -> TemplateModel:
     k = ("tm", id(ctx.repo))
     if k not in _cache:
         _cache[k] = TemplateModel(ctx.repo)
+        # forwarding properties of the plugin model, by the name the template gives the object
+        from ..jinja_model import PROPERTY_CHAINS
+        PROPERTY_CHAINS.clear()
+        mod = ctx.repo.mod(M_MODELS)
+        for var, cls_ in (("method", "ServiceMethodCompiler"), ("message", "MessageCompiler"), ("field", "FieldCompiler"), ("service", "ServiceCompiler"), ("enum", "EnumDefinitionCompiler")):
+            for mname, fns in mod.methods(cls_).items():
+                f_ = fns[0]
+                if not any("property" in ast.unparse(d) for d in f_.decorator_list):
+                    continue
+                rets_ = [r.value for r in ast.walk(f_) if isinstance(r, ast.Return) and r.value is not None]
+                if len(rets_) == 1 and isinstance(rets_[0], ast.Attribute) and ast.unparse(rets_[0]).startswith("self."):
+                    PROPERTY_CHAINS[(var, mname)] = ast.unparse(rets_[0])[5:]
     return _cache[k]
 
 
@@ -33,6 +45,13 @@ def tc_only_imports(ctx) -> List[str]:
         if isinstance(n, ast.Call) and isinstance(n.func, ast.Attribute) and n.func.attr == "add" and "imports_type_checking_only" in ast.unparse(n.func.value) \
                 and n.args and isinstance(n.args[0], ast.Constant):
             out.append(n.args[0].value)
+        if isinstance(n, ast.Call) and isinstance(n.func, ast.Attribute) and n.func.attr == "update" and "imports_type_checking_only" in ast.unparse(n.func.value) and len(n.args) == 1:
+            a = n.args[0]
+            vals = mod.consts.get(a.id) if isinstance(a, ast.Name) else None
+            if vals is None and isinstance(a, (ast.Tuple, ast.List, ast.Set)) and all(isinstance(e, ast.Constant) for e in a.elts):
+                vals = [e.value for e in a.elts]
+            if isinstance(vals, (tuple, list, set, frozenset)) and all(isinstance(v, str) for v in vals):
+                out.extend(vals)
     return sorted(out)
 
 
@@ -849,7 +868,18 @@ def rule_Y2iii(ctx, rule: str = "Y2") -> None:
     fn = mod.func("OutputTemplate.python_module_imports")
     have: Set[Tuple[str, str]] = set()
     var_coll: Dict[str, Set[str]] = {}
-    comps = [n for n in ast.walk(fn) if isinstance(n, (ast.GeneratorExp, ast.ListComp, ast.SetComp))] + [n for n in ast.walk(fn) if isinstance(n, ast.For)]
+    # the property together with the private methods of OutputTemplate it asks (`if self._has_deprecated_definitions():`)
+    scope = [fn]
+    for _ in range(3):
+        for f_ in list(scope):
+            for c_ in ast.walk(f_):
+                if isinstance(c_, ast.Call) and isinstance(c_.func, ast.Attribute) and isinstance(c_.func.value, ast.Name) and c_.func.value.id == "self" \
+                        and mod.has(f"OutputTemplate.{c_.func.attr}"):
+                    h_ = mod.func(f"OutputTemplate.{c_.func.attr}")
+                    if all(h_ is not x for x in scope):
+                        scope.append(h_)
+    walk_all = [n for f_ in scope for n in ast.walk(f_)]
+    comps = [n for n in walk_all if isinstance(n, (ast.GeneratorExp, ast.ListComp, ast.SetComp))] + [n for n in walk_all if isinstance(n, ast.For)]
     for _round in range(6):       # nesting depth of the comprehensions is tiny; the sets only grow
         for c in comps:
             gens = c.generators if not isinstance(c, ast.For) else [c]
@@ -865,18 +895,32 @@ def rule_Y2iii(ctx, rule: str = "Y2") -> None:
                     for base in list(var_coll[root]):
                         if base.count(".") < 3:
                             var_coll.setdefault(tgt, set()).add(base + "." + rest)
-    for n in ast.walk(fn):
+    for n in walk_all:
         if isinstance(n, ast.Attribute):
             txt = ast.unparse(n)
             root, _, chain = txt.partition(".")
             if root in var_coll and chain:
                 for coll in var_coll[root]:
                     have.add((coll, chain))
-    norm = lambda c: c.replace("has_deprecated_fields", "deprecated_fields")
-    have_n = {(a, norm(b)) for a, b in have}
+    # a property that only forwards (`return self.proto_obj.options.deprecated`) and the chain it forwards to are one question
+    KIND = {"messages": "MessageCompiler", "services.methods": "ServiceMethodCompiler", "messages.fields": "FieldCompiler", "services": "ServiceCompiler", "enums": "EnumDefinitionCompiler"}
+
+    def norm2(coll: str, chain: str) -> str:
+        chain = chain.replace("has_deprecated_fields", "deprecated_fields")
+        cls_ = KIND.get(coll)
+        head, _, rest = chain.partition(".")
+        if cls_ and mod.has(f"{cls_}.{head}"):
+            pf = mod.func(f"{cls_}.{head}")
+            rets_ = [r.value for r in ast.walk(pf) if isinstance(r, ast.Return) and r.value is not None]
+            if len(rets_) == 1 and isinstance(rets_[0], ast.Attribute) and ast.unparse(rets_[0]).startswith("self.") and any(
+                    "property" in ast.unparse(d) for d in pf.decorator_list):
+                return ast.unparse(rets_[0])[5:] + ("." + rest if rest else "")
+        return chain
+
+    have_n = {(a, norm2(a, b)) for a, b in have}
     for (coll, chain), line in sorted(conds.items()):
         name = f"warnings-import:{coll}.{chain}"
-        if (coll, norm(chain)) in have_n:
+        if (coll, norm2(coll, chain)) in have_n:
             ctx.proved(rule, name, f"{T_BODY}:{line}")
         else:
             ctx.refuted(rule, name, "no-matching-disjunct", mod.loc(fn),
